@@ -5,7 +5,8 @@
    fitted matrix (PSD by LDL^T, budget recomputed from the pairs and the observed initial matrix),
    props/c14.py. *)
 From Coq Require Import List Reals.
-From ML Require Import Ops Vec VecR MatR LinAlg MMC C14Proof.
+From ML Require Import Ops Vec VecR MatR LinAlg NPNum MMC C14Proof C14Src.
+From MLgen Require Import Src_mmc.
 From ML Require Import PinsC14.
 Import ListNotations.
 Open Scope R_scope.
@@ -37,3 +38,31 @@ Print Assumptions C14_partial.
 (* text-level tie: the functions this property's hand-written model and harness were written from are unchanged
    (digests regenerated from /repo on every run; Proofs/PinsC14.v) *)
 Definition C14_source_pins := pins_C14_ok.
+
+(* the translated source (gen/Src_mmc.v): budget, half-space step and exit test of the projection loop *)
+Definition C14_source_stmt : Prop :=
+  (* w . vec(A) is the sum over the similar pairs of the squared learned distance, for every d x d matrix A; hence the
+     translated budget t is one hundredth of that sum under the initial matrix *)
+  (forall d (X A : Rm), Forall (wfvR d) X -> wfmR d d A ->
+     vdotR (@nn_ravel ROps (@nn_einsum_ij_ik_jk ROps d X X)) (@nn_ravel ROps A) = @fS ROps A X) /\
+  (forall d (X A0 : Rm), Forall (wfvR d) X -> wfmR d d A0 ->
+     snd (fst (fst (@mmc_setup ROps d X A0))) = @fS ROps A0 X / 100) /\
+  (* the first-constraint step lands inside the budget half-space (exactly on its boundary when it moves) *)
+  (forall (w x0 : Rv) (t : R), length x0 = length w -> 0 < vdotR w w ->
+     let n := @nn_norm_v ROps w in
+     let x := @mmc_project1 ROps w t (@nn_div_vs ROps w n) (t / n) x0 in
+     vdotR w x <= t /\ (t < vdotR w x0 -> vdotR w x = t) /\ length x = length w) /\
+  (* the exit test of the projection loop: `satisfy` means the similar-pair sum is below 1.01 t *)
+  (forall d (X A : Rm) (t : R), Forall (wfvR d) X -> wfmR d d A -> 0 < t ->
+     @mmc_satisfied ROps (@nn_ravel ROps (@nn_einsum_ij_ik_jk ROps d X X)) t A = true ->
+     @fS ROps A X < (101 / 100) * t).
+
+Theorem C14_source : C14_source_stmt.
+Proof.
+  split; [exact mmc_w_is_fS|]. split.
+  - intros d X A0 HX HA. unfold mmc_setup. cbn [fst snd]. unfold nn_dot_vv. rewrite (mmc_w_is_fS d X A0 HX HA). reflexivity.
+  - split; [exact mmc_project1_budget|].
+    intros d X A t HX HA Ht H. rewrite <- (mmc_w_is_fS d X A HX HA). apply mmc_satisfied_budget; auto.
+Qed.
+Print Assumptions C14_source.
+Definition C14_source_skeleton := mmc_skeleton_ok.
